@@ -30,6 +30,12 @@ func CheckIfAccountIsSuitableForDestroyingAt(account sdk.AccountI, now time.Time
 		return
 	}
 
+	if _, ok := account.(*vestingtypes.PermanentLockedAccount); ok {
+		// coins of a permanent locked account never vest (its end time is zero), so it never expires
+		reason = "permanent locked vesting account is not suitable for destroying"
+		return
+	}
+
 	if vestingAcc, ok := account.(*vestingtypes.BaseVestingAccount); ok {
 		if vestingAcc.GetEndTime() > now.Unix() {
 			reason = "unexpired vesting account is not suitable for destroying"
